@@ -49,13 +49,13 @@ func (e Event) Words(bigEndian bool) Data {
 // opcode fields
 const (
 	ClsLD, ClsLDX, ClsST, ClsSTX, ClsALU, ClsJMP, ClsRET, ClsMISC = 0, 1, 2, 3, 4, 5, 6, 7
-	SzW, SzH, SzB                                                  = 0x00, 0x08, 0x10
-	ModeIMM, ModeABS, ModeIND, ModeMEM, ModeLEN, ModeMSH           = 0x00, 0x20, 0x40, 0x60, 0x80, 0xa0
-	SrcK, SrcX, SrcA                                               = 0x00, 0x08, 0x10
-	AluADD, AluSUB, AluMUL, AluDIV, AluOR, AluAND, AluLSH, AluRSH  = 0x00, 0x10, 0x20, 0x30, 0x40, 0x50, 0x60, 0x70
-	AluNEG, AluMOD, AluXOR                                         = 0x80, 0x90, 0xa0
-	JmpJA, JmpJEQ, JmpJGT, JmpJGE, JmpJSET                         = 0x00, 0x10, 0x20, 0x30, 0x40
-	MiscTAX, MiscTXA                                               = 0x00, 0x80
+	SzW, SzH, SzB                                                 = 0x00, 0x08, 0x10
+	ModeIMM, ModeABS, ModeIND, ModeMEM, ModeLEN, ModeMSH          = 0x00, 0x20, 0x40, 0x60, 0x80, 0xa0
+	SrcK, SrcX, SrcA                                              = 0x00, 0x08, 0x10
+	AluADD, AluSUB, AluMUL, AluDIV, AluOR, AluAND, AluLSH, AluRSH = 0x00, 0x10, 0x20, 0x30, 0x40, 0x50, 0x60, 0x70
+	AluNEG, AluMOD, AluXOR                                        = 0x80, 0x90, 0xa0
+	JmpJA, JmpJEQ, JmpJGT, JmpJGE, JmpJSET                        = 0x00, 0x10, 0x20, 0x30, 0x40
+	MiscTAX, MiscTXA                                              = 0x00, 0x80
 )
 
 const (
